@@ -235,7 +235,7 @@ func c04RandomCount(env *core.Env) int {
 	if env.Thorough() {
 		return 60000
 	}
-	return 3000
+	return 8000
 }
 
 func c04NumCases(env *core.Env) int { return c04Structured(env) + c04RandomCount(env) }
